@@ -279,6 +279,7 @@ pub fn run_engine<E: Engine + 'static>(engine: Arc<E>, tier: Tier, seed: u64) ->
                 let mut runner = TestRunner::new_with_rng(config, rng);
                 let strategy = engine.strategy(tier);
                 let timing = std::env::var("VERIF_TIMING").is_ok();
+                let collect = std::env::var("VERIF_COLLECT").is_ok();
                 IN_SHRINK.with(|s| s.set(false));
                 let last_violation: Arc<Mutex<Option<Violation>>> = Arc::new(Mutex::new(None));
                 let lv = last_violation.clone();
@@ -302,6 +303,16 @@ pub fn run_engine<E: Engine + 'static>(engine: Arc<E>, tier: Tier, seed: u64) ->
                         record(&stats, &out);
                     }
                     if let Some(v) = out.violation {
+                        if collect {
+                            // developer mode: histogram of violation signatures, never fails
+                            *stats
+                                .lock()
+                                .unwrap()
+                                .known_hits
+                                .entry(format!("COLLECTED {}", v.signature))
+                                .or_default() += 1;
+                            return Ok(());
+                        }
                         if let Some(k) = known.iter().find(|k| v.signature.contains(&k.signature)) {
                             if !shrinking {
                                 *stats
